@@ -14,7 +14,7 @@ use std::path::PathBuf;
 use vharness::common::*;
 
 const BASE: i64 = 1_700_000_000_000;
-const MODEL: &str = "ns { E1{ name:String, subs:[ns.E2] } E2{ name:String } E3{ name:String } }";
+const MODEL: &str = "ns { E1{ name:String, subs:[ns.E2], owner:ns.E3 } E2{ name:String } E3{ name:String } }";
 const A: u64 = 1; // the caller (instance A)
 const B: u64 = 2; // the room admin and other author (instance B)
 const C: u64 = 3; // a third key that only appears in definitions
@@ -197,6 +197,7 @@ async fn scenario(rng: &mut Rng, out: &mut Out, sidx: usize) {
     clock += 1000;
     verif_clock::set(clock);
     let mut edge_author: HashMap<(usize, usize), u64> = HashMap::new();
+    let mut owner_edge: HashMap<usize, (usize, u64)> = HashMap::new();
     for rid in 1..=2u64 {
         let mut ids = vec![];
         for ent in 1..=3u64 {
@@ -299,7 +300,7 @@ async fn scenario(rng: &mut Rng, out: &mut Out, sidx: usize) {
         let defs = defs_coq(&scn.defs);
         let before = dump(&a).await;
         let before_rooms = dump_rooms(&a).await;
-        let kind = [0,1,2,3,4,5,6,7,8,9,10,11,12,13,14,14,14][rng.below(17) as usize];
+        let kind = [0,1,2,3,4,5,6,7,8,9,10,11,12,13,14,14,14,15,15][rng.below(19) as usize];
         let (coq, refused, opname): (String, bool, &str);
         match kind {
             0 | 1 => { // create (plain or nested)
@@ -410,6 +411,26 @@ async fn scenario(rng: &mut Rng, out: &mut Out, sidx: usize) {
                     all_dates.push(now);
                 }
                 opname = "room-mutation";
+            }
+            15 => { // an update that only sets the single reference `owner` of a row (first time, same target again, or another target)
+                let parents: Vec<usize> = alive.iter().cloned().filter(|i| scn.rows[*i].ent == 1).collect();
+                let targets: Vec<usize> = alive.iter().cloned().filter(|i| scn.rows[*i].ent == 3).collect();
+                if parents.is_empty() || targets.is_empty() { continue; }
+                let pi = *rng.pick(&parents);
+                let ti = *rng.pick(&targets);
+                let (pr, tr) = (scn.rows[pi].clone(), scn.rows[ti].clone());
+                let current = owner_edge.get(&pi).cloned();
+                let changes = current.map(|(t, _)| t != ti).unwrap_or(true);
+                let dels: Vec<u64> = if changes { current.map(|(_, au)| vec![au]).unwrap_or_default() } else { vec![] };
+                let mut p = Parameters::default();
+                p.add("p", pr.id.clone()).unwrap();
+                p.add("t", tr.id.clone()).unwrap();
+                let res = a.db.mutate_raw(r#"mutate { ns.E1{ id:$p owner:{ id:$t } } }"#, Some(p)).await;
+                coq = format!("CMut {} {} {} [{}]", defs, gn(A), gz(now), ment(head_d(1, Some(pr.room), now, changes, Some((pr.room, pr.author)), &dels),
+                    vec![ment(head(3, Some(tr.room), now, false, Some((tr.room, tr.author))), vec![])]));
+                refused = res.is_err();
+                if res.is_ok() && changes { scn.rows[pi].author = A; owner_edge.insert(pi, (ti, A)); }
+                opname = "set-single-reference";
             }
             14 => { // a room mutation whose write fails (injected storage failure): answered Err, nothing changes,
                     // and the rights it would have granted are NOT in force afterwards
